@@ -88,6 +88,8 @@ type defaultStatefulSetControl struct {
 // in no particular order. Clients using the burst strategy should be careful to ensure they
 // understand the consistency implications of having unpredictable numbers of pods available.
 func (ssc *defaultStatefulSetControl) UpdateStatefulSet(set *apps.StatefulSet, pods []*v1.Pod) error {
+	// the CRD schema admits objects without these optional fields
+	sanitizeStatefulSet(set)
 
 	// list all revisions and sort them
 	revisions, err := ssc.ListRevisions(set)
